@@ -26,6 +26,8 @@ import (
 
 const modPath = "github.com/ovh/kmip-go"
 
+var processStart = time.Now()
+
 type Status int
 
 const (
@@ -88,7 +90,7 @@ type Run struct {
 }
 
 func NewRun(prop, tier string, p *Program) *Run {
-	return &Run{Prop: prop, Tier: tier, P: p, floors: map[string]int{}, Extra: map[string]any{}, start: time.Now(), ruleDesc: map[string]string{}}
+	return &Run{Prop: prop, Tier: tier, P: p, floors: map[string]int{}, Extra: map[string]any{}, start: processStart, ruleDesc: map[string]string{}}
 }
 
 // Rule declares a rule, what it decides, and the minimum number of instances
@@ -526,6 +528,15 @@ func (r *Run) Finish(evidencePath, knownPath, outDir string, seed int) int {
 	if lv, ok := r.Extra["level"].(string); ok {
 		level = lv
 		delete(cov, "level")
+	}
+	if r.Assume == nil {
+		r.Assume = []string{"go/types, go/ssa and the VTA call graph model the program faithfully (no unsafe, cgo or linkname in the repository: checked at load)"}
+	}
+	if r.NotCov == nil {
+		r.NotCov = []string{}
+	}
+	if r.Info == nil {
+		r.Info = []string{}
 	}
 	ev := map[string]any{
 		"property_id": r.Prop,
